@@ -506,3 +506,43 @@ def afm_supercell(spec, w, base_spins=None, label=None):
     g2 = fmat_mul(fmat_T(N), fmat_mul(spec.g, N))
     Aq = fmat_mul(spec.Aq, N) if spec.Aq is not None else None
     return Spec(label or (spec.label + "+afm" + "".join(str(x % 2) for x in w)), A2, g2, basis, spins, Aq)
+
+
+def texture_specs():
+    """non-collinear VECTOR-spin crystals whose spins are related by 3-, 4-, 6-fold rotations (spins are floats: evaluated by the
+    float-side spin test; positions / metric exact): kagome 120-degree q=0 textures of both chiralities (2-D with 2-vector spins and
+    3-D with 3-vector spins), a square-lattice 4-sublattice vortex and anti-vortex, pyrochlore (fcc) all-in-all-out and 2-in-2-out"""
+    o, h, q, i = Fr(0), Fr(1, 2), Fr(1, 4), Fr(1)
+    out = []
+    ang = lambda deg, dim=2: tuple([math.cos(math.radians(deg)), math.sin(math.radians(deg))] + [0.0] * (dim - 2))
+    # kagome: hexagonal net, sites a1/2, a2/2, (a1+a2)/2
+    A2 = np.array([[1., -.5], [0., S3 / 2]]); g2 = [[i, -h], [-h, i]]
+    kag = [(h, o), (o, h), (h, h)]
+    for nm, degs in (("kagome-120-chirality+", (90, 210, 330)), ("kagome-120-chirality-", (90, 330, 210)), ("kagome-120-radial", (0, 120, 240))):
+        out.append(Spec(nm, A2, g2, [list(kag)], [[ang(a) for a in degs]]))
+    csq = Fr(8, 3)
+    A3 = np.array([[.5, .5, 0.], [-S3 / 2, S3 / 2, 0.], [0., 0., math.sqrt(float(csq))]]); g3 = [[i, -h, o], [-h, i, o], [o, o, csq]]
+    kag3 = [(h, o, o), (o, h, o), (h, h, o)]
+    # in this 3-D cell a1 = (1/2,-sqrt3/2,0), a2 = (1/2,sqrt3/2,0): site directions at -60, 60, 0 degrees
+    for nm, degs in (("kagome3d-120-chirality+", (30, 150, 270)), ("kagome3d-120-chirality-", (30, 270, 150)), ("kagome3d-120-tangential", (30, 150, 270))):
+        if nm.endswith("tangential"): degs = (-60 + 90, 60 + 90, 0 + 90)
+        out.append(Spec(nm, A3, g3, [list(kag3)], [[ang(a, 3) for a in degs]]))
+    # square lattice, 4 sublattices around the cell centre
+    sq = [[i, o], [o, i]]; Asq = np.eye(2); gsq = [[i, o], [o, i]]
+    pos = [(q, q), (3 * q, q), (3 * q, 3 * q), (q, 3 * q)]
+    r2 = 1 / math.sqrt(2.)
+    vortex = [(r2, -r2), (r2, r2), (-r2, r2), (-r2, -r2)]            # tangential, counter-clockwise
+    anti = [(r2, -r2), (-r2, -r2), (-r2, r2), (r2, r2)]                # anti-vortex
+    radial = [(-r2, -r2), (r2, -r2), (r2, r2), (-r2, r2)]
+    for nm, sp in (("square-vortex", vortex), ("square-antivortex", anti), ("square-radial", radial)):
+        out.append(Spec(nm, Asq, gsq, [list(pos)], [list(sp)], sq))
+    # pyrochlore: fcc primitive cell, sites (0,0,0), (1/2,0,0), (0,1/2,0), (0,0,1/2); local <111> axes from the tetrahedron centre
+    fcc = [[o, h, h], [h, o, h], [h, h, o]]
+    Af = np.array([[float(x) for x in r] for r in fcc]); gf = fmat_mul(fmat_T(fcc), fcc)
+    pyro = [(o, o, o), (h, o, o), (o, h, o), (o, o, h)]
+    r3 = 1 / math.sqrt(3.)
+    axes = [(-r3, -r3, -r3), (-r3, r3, r3), (r3, -r3, r3), (r3, r3, -r3)]
+    out.append(Spec("pyrochlore-all-in-all-out", Af, gf, [list(pyro)], [list(axes)], fcc))
+    out.append(Spec("pyrochlore-2in-2out", Af, gf, [list(pyro)], [[axes[0], axes[1], tuple(-x for x in axes[2]), tuple(-x for x in axes[3])]], fcc))
+    out.append(Spec("pyrochlore-with-spectator", Af, gf, [list(pyro), [(h, h, h)]], [list(axes), [(0.0, 0.0, 0.0)]], fcc))
+    return out
